@@ -43,8 +43,21 @@ structure Codec (K : Type) extends NumFmt K where
   lt1 : K → Bool              -- `x < 1`
   ellKnown : String → Bool    -- GNU_gama::ellipsoid(name) != unknown
   sdDist : K → K → K          -- `apriori_m_0() * sqrt(dist)`
+  /-- the elements of `<cov-mat>`: `updated_xml_covmat` prints them through its own stream (`setf(scientific)`,
+      `precision(16)`: `%.16e`), not through `to_xmlstr`; they are read by the same `toDouble`.  The toy codecs print
+      them as any other number (the default) -/
+  fmtCov : K → String := fmt
 
 variable {K : Type}
+
+/-- the number format of the `<cov-mat>` elements: their own printer, the common reader -/
+def Codec.covFmt (C : Codec K) : NumFmt K := { C.toNumFmt with fmt := C.fmtCov }
+
+/-- a covariance element the `<cov-mat>` text gives back exactly -/
+def Codec.CovRep (C : Codec K) (x : K) : Prop := C.rd (C.fmtCov x) = some x
+
+instance [DecidableEq K] (C : Codec K) : DecidablePred C.CovRep :=
+  fun x => inferInstanceAs (Decidable (C.rd (C.fmtCov x) = some x))
 
 /-! ## points -/
 
@@ -335,13 +348,14 @@ def scaleWith (f : K → K) : List Nat → List K → List K
 def scaleCov (f : K → K) (fl : Nat → Bool) (c : Cov K) : Cov K :=
   { c with data := scaleWith f (entryCounts c.dim c.band fl) c.data }
 
-/-- `updated_xml_covmat(xml, C, always, list)`: `none` = nothing written -/
+/-- `updated_xml_covmat(xml, C, always, list)`: `none` = nothing written; the elements are printed with the format of
+    that function (`Codec.fmtCov`, regenerated site `updated_xml_covmat` of Gen/GkfFmtSites.lean) -/
 def exportCovCall (C : Codec K) (call : Bool × Bool) (ys degrees : Bool) (mir ang : Nat → Bool) (c : Cov K) : Option CovDoc :=
   if covSkipsDiagonal && !call.1 && c.band == 0 then none
   else
     let c1 := if call.2 && ys && covMirrors then mirrorCov C.neg mir c else c
     let c2 := if call.2 && degrees && covScalesSeconds then scaleCov C.toSec ang c1 else c1
-    some (exportCov C.toNumFmt c2)
+    some (exportCov C.covFmt c2)
 
 /-- `process_cov` + `finish_cov`: dim ≥ 1, band < dim, exactly dim·(band+1) − band·(band+1)/2 numbers; `n` = number of
     observations of the cluster (`finish_obs` … compare `idim` with it) -/
